@@ -785,7 +785,7 @@ def create_path(rep, add_formula, check):
             if arg.type == _clingo.TheoryTermType.Symbol:
                 if not check and arg.name == "true":
                     return add_formula(SkipPath())
-                if check and arg.name == "true" or arg.name == "false":
+                if check and (arg.name == "true" or arg.name == "false"):
                     return add_formula(BooleanConstant(arg.name == "true"))
                 else:
                     raise RuntimeError("unknown identifier: {}".format(rep))
